@@ -28,8 +28,9 @@ def main():
     pkg = m.group(1)
     base = pkg[:-5] if pkg.endswith("_test") else pkg
     pdir = PKGDIR.get(base)
+    modmode = os.path.exists(os.path.join(mdir, "go.mod"))
     tests = re.findall(r"^func (Test\w+)\(", src, re.M)
-    race = "-race" in src.split("package")[0]
+    race = "-race" in src.split("\npackage")[0]
     res = {"property": prop, "mutant": mdir, "package": base, "tests": tests}
     wt = tempfile.mkdtemp(prefix="mw-", dir="/tmp")
     os.rmdir(wt)
@@ -41,6 +42,18 @@ def main():
             res["error"] = out.strip()[-300:]
             return res
         def demo_run():
+            if modmode:
+                d = tempfile.mkdtemp(prefix="md-", dir="/tmp")
+                for f in ("go.mod", "go.sum", "demo_test.go"):
+                    if os.path.exists(os.path.join(mdir, f)):
+                        shutil.copy(os.path.join(mdir, f), d)
+                gm = open(os.path.join(d, "go.mod")).read()
+                gm = re.sub(r"(replace github.com/gcash/bchutil => )\S+", r"\g<1>" + wt, gm)
+                open(os.path.join(d, "go.mod"), "w").write(gm)
+                cmd = ["go", "test", "-vet=off", "-count=1"] + (["-race"] if race else []) + ["./..."]
+                rc, out = run(cmd, cwd=d, timeout=900)
+                shutil.rmtree(d, ignore_errors=True)
+                return rc, out
             dst = os.path.join(wt, pdir, "zz_mutant_demo_test.go")
             shutil.copy(demo, dst)
             cmd = ["go", "test", "-vet=off", "-count=1", "-run", "^(" + "|".join(tests) + ")$"]
